@@ -28,10 +28,11 @@ def _neighbours(v):
         return [v + b"a", v[:-1], b""]
     if isinstance(v, (pd.Timestamp, np.datetime64)):
         t = pd.Timestamp(v)
-        return [t - pd.Timedelta(1, "us"), t + pd.Timedelta(1, "us"), t - pd.Timedelta(1, "D"), t + pd.Timedelta(1, "D")]
+        # (fractions finer than the unit a second / millisecond column is stored in)
+        return [t - pd.Timedelta(1, "us"), t + pd.Timedelta(1, "us"), t - pd.Timedelta(1, "D"), t + pd.Timedelta(1, "D"), t + pd.Timedelta(500, "ms"), t - pd.Timedelta(250, "us"), t + pd.Timedelta(250, "ms")]
     if isinstance(v, (pd.Timedelta, np.timedelta64)):
         t = pd.Timedelta(v)
-        return [t - pd.Timedelta(1, "us"), t + pd.Timedelta(1, "us")]
+        return [t - pd.Timedelta(1, "us"), t + pd.Timedelta(1, "us"), t + pd.Timedelta(500, "ms"), t - pd.Timedelta(250, "us"), t + pd.Timedelta(250, "ms")]
     return []
 
 
